@@ -77,8 +77,9 @@ func (k *kernel) bindPartial(ind int, s *ast.AssignStmt, call *ast.CallExpr, fol
 		k.fail(s, "assignment operator %s with a call that may panic", s.Tok)
 	}
 	text, outs := k.partialCallText(call)
-	if len(outs) != len(s.Lhs) {
-		k.fail(s, "the %d results of the call are not all assigned", len(outs))
+	shapes := k.callShapes(call, outs)
+	if len(shapes) != len(s.Lhs) {
+		k.fail(s, "the %d results of the call are not all assigned", len(shapes))
 	}
 	k.ncall++
 	tmp := k.fresh(fmt.Sprintf("call%d", k.ncall))
@@ -99,7 +100,7 @@ func (k *kernel) bindPartial(ind int, s *ast.AssignStmt, call *ast.CallExpr, fol
 		k.assigned(v)
 		k.line(ind+1, "let %s : %s := %s %s %s", v.lean, v.typ(), v.lean, compound, tmp)
 	} else {
-		k.bindResults(ind+1, s, tmp, outs)
+		k.bindResultsOf(ind+1, s, tmp, outs, shapes)
 	}
 	k.stmts(following, ind+1, rest)
 }
